@@ -113,7 +113,15 @@ func NewRun(c *kit.Ctx, id string, r *rand.Rand, sc *Scenario) (*Run, error) {
 	// side-chain imports: one across at least two period ends (a record of one period, a transaction for the same pair in the next, its take-effect at the following end), one later (longer chains only)
 	run.SideImportAt = map[uint64]bool{uint64(34 + r.Intn(40)): true} // at least two period ends (16 blocks each) inside
 	if sc.Blocks > 120 && r.Intn(2) == 0 {
-		run.SideImportAt[uint64(60+r.Intn(sc.Blocks-100))] = true
+		// (bounded: a side import re-executes the whole chain so far and builds a branch of the same length)
+		at := 60 + r.Intn(sc.Blocks-100)
+		if at > 200 {
+			at = 120 + at%80
+		}
+		run.SideImportAt[uint64(at)] = true
+	}
+	if c.Mode == "race" {
+		run.SideImportAt = nil // the race build is an order of magnitude slower; the plain job covers it
 	}
 	return run, nil
 }
